@@ -305,14 +305,31 @@ func (ex *Exec) callFunction(fn *ssa.Function, args []Value, bind []Value, site 
 			pass := strings.HasSuffix(z, "+") // "+": the stub receives the function's arguments
 			z = strings.TrimSuffix(z, "+")
 			h := intrinsics["github.com/whatap/golib/zzvf."+z]
-			if h == nil {
-				ex.unsupported("stub target zzvf.%s unknown", z)
-			}
 			ex.stub(fn.String() + " (replaced by zzvf." + z + ")")
+			if h == nil {
+				// an environment model written in Go (zzvf/env.go): execute it
+				var tgt *ssa.Function
+				if zp := ex.P.prog.ImportedPackage(repoMod + "/zzvf"); zp != nil {
+					tgt = zp.Func(z)
+				}
+				if tgt == nil {
+					ex.unsupported("stub target zzvf.%s unknown", z)
+				}
+				if pass {
+					return ex.callFunction(tgt, args, nil, site)
+				}
+				return ex.callFunction(tgt, nil, nil, site)
+			}
 			if pass {
 				return h(ex, fn, args, site)
 			}
 			return h(ex, fn, nil, site)
+		}
+	}
+	if !ex.initMode {
+		if tgt := ex.P.redirectFor(fn); tgt != nil {
+			ex.stub(fn.String() + " (environment model: zzvf " + tgt.Name() + ")")
+			return ex.callFunction(tgt, args, nil, site)
 		}
 	}
 	if r, handled := ex.intrinsic(fn, args, site); handled {
